@@ -915,6 +915,93 @@ Section SigLaws.
   Qed.
 End SigLaws.
 
+(* The same three perturbations for COMMITMENTS: the commitment's own signature replaced / its
+   digest recomputed for another embedded bid, through verify_preconf. *)
+Definition with_csig (c : preconf) (s : bytes) : preconf :=
+  {| c_bid := c_bid c; c_dig := c_dig c; c_sig := Some s; c_prov := c_prov c |}.
+
+Section CommitmentLaws.
+  Variable K : bytes -> bytes.
+  Variable cr : crypto.
+  Variable neg_s : bytes -> bytes.
+  Variable zn : bytes -> Z.
+  Variable klen : nat.
+  Hypothesis K_len : forall m, length (K m) = klen.
+
+  Hypothesis law_flip : forall h rs pk pk', length rs = 64%nat ->
+    recover cr h (rs ++ [0]) = Ok pk -> recover cr h (rs ++ [1]) = Ok pk' -> pk <> pk'.
+  Hypothesis law_low_s : forall pk pk' h rs, length rs = 64%nat ->
+    verify_rs cr pk h rs = true -> verify_rs cr pk' h (neg_s rs) = false.
+  Hypothesis law_digest : forall d d' sig pk pk', zn d <> zn d' ->
+    recover cr d sig = Ok pk -> recover cr d' sig = Ok pk' -> pk <> pk'.
+  Hypothesis addr_inj : forall p q, addr_of cr p = addr_of cr q -> p = q.
+
+  Lemma verify_with_csig c s a :
+    verify_preconf K cr (with_csig c s) = Ok a ->
+    exists b d, c_bid c = Some b /\ c_dig c = Some d /\ commitment_hash K c = Ok d /\ sig_valid cr d s a.
+  Proof.
+    intros H. apply verify_preconf_sound in H.
+    destruct H as (b & d & s' & Hb & Hd & Hs & _ & Hh & HS).
+    cbn [c_sig with_csig] in Hs. injection Hs as <-. exists b, d.
+    split; [exact Hb|]. split; [exact Hd|]. split; [exact Hh|exact HS].
+  Qed.
+
+  Theorem commitment_flipped_bit c rs v v' a a' :
+    length rs = 64%nat -> v_to01 v = 0 -> v_to01 v' = 1 ->
+    verify_preconf K cr (with_csig c (rs ++ [v])) = Ok a ->
+    verify_preconf K cr (with_csig c (rs ++ [v'])) = Ok a' -> a' <> a.
+  Proof.
+    intros L E0 E1 V V'.
+    apply verify_with_csig in V. destruct V as (b & d & _ & Hd & _ & HS).
+    apply verify_with_csig in V'. destruct V' as (b' & d' & _ & Hd' & _ & HS').
+    rewrite Hd in Hd'. injection Hd' as <-.
+    apply (sig_valid_split cr) in HS. destruct HS as (rs1 & v1 & pk & E & L1 & R & _ & ->).
+    apply (sig_valid_split cr) in HS'. destruct HS' as (rs2 & v2 & pk' & E' & L2 & R' & _ & ->).
+    apply app_inj_tail in E. destruct E as [<- <-]. apply app_inj_tail in E'. destruct E' as [<- <-].
+    rewrite E0 in R. rewrite E1 in R'.
+    intros A. apply addr_inj in A. exact (law_flip d rs pk pk' L R R' (eq_sym A)).
+  Qed.
+
+  Theorem commitment_negated_s c rs v v' a :
+    length rs = 64%nat ->
+    verify_preconf K cr (with_csig c (rs ++ [v])) = Ok a ->
+    forall a', verify_preconf K cr (with_csig c (neg_s rs ++ [v'])) <> Ok a'.
+  Proof.
+    intros L V a' V'.
+    apply verify_with_csig in V. destruct V as (b & d & _ & Hd & _ & HS).
+    apply verify_with_csig in V'. destruct V' as (b' & d' & _ & Hd' & _ & HS').
+    rewrite Hd in Hd'. injection Hd' as <-.
+    apply (sig_valid_split cr) in HS. destruct HS as (rs1 & v1 & pk & E & L1 & _ & Vr & _).
+    apply (sig_valid_split cr) in HS'. destruct HS' as (rs2 & v2 & pk' & E' & L2 & _ & Vr' & _).
+    apply app_inj_tail in E. destruct E as [<- <-]. apply app_inj_tail in E'. destruct E' as [<- <-].
+    rewrite (law_low_s pk pk' d rs L Vr) in Vr'. discriminate.
+  Qed.
+
+  (* another embedded bid (other values, or other digest / signature bytes), the commitment digest
+     recomputed for it, the OLD commitment signature *)
+  Theorem commitment_digest_substitution c c' b b' a a' d d' :
+    c_bid c = Some b -> c_bid c' = Some b' ->
+    int64_fields b -> int64_fields b' -> wf_bid b -> wf_bid b' ->
+    verify_preconf K cr c = Ok a -> verify_preconf K cr c' = Ok a' ->
+    c_sig c' = c_sig c -> c_dig c = Some d -> c_dig c' = Some d' ->
+    ~ (same_bid_fields b b' /\ obytes (b_dig b) = obytes (b_dig b') /\ obytes (b_sig b) = obytes (b_sig b')) ->
+    a' <> a \/ (d <> d' /\ zn d = zn d') \/ collision_among K (commitment_preimage_pairs K b b').
+  Proof.
+    intros B B' I I' W W' V V' ES Hd Hd' NS.
+    destruct (list_eq_dec N.eq_dec d d') as [E|NE].
+    - subst d'. destruct (verify_preconf_binding K cr klen K_len c c' b b' a a' B B' I I' W W' V V') as [S|C];
+        [congruence|contradiction|right; right; exact C].
+    - destruct (Z.eq_dec (zn d) (zn d')) as [EZ|NZ]; [right; left; split; assumption|].
+      left. apply verify_preconf_sound in V. destruct V as (b1 & d1 & s1 & _ & D1 & S1 & _ & _ & HS).
+      apply verify_preconf_sound in V'. destruct V' as (b2 & d2 & s2 & _ & D2 & S2 & _ & _ & HS').
+      rewrite Hd in D1. injection D1 as <-. rewrite Hd' in D2. injection D2 as <-.
+      rewrite S1, S2 in ES. injection ES as ->.
+      destruct HS as (_ & v & pk & Hv & R & _ & ->). destruct HS' as (_ & v' & pk' & Hv' & R' & _ & ->).
+      rewrite Hv in Hv'. injection Hv' as <-.
+      intros A. apply addr_inj in A. exact (law_digest d d' _ pk pk' NZ R R' (eq_sym A)).
+  Qed.
+End CommitmentLaws.
+
 (* ------------------------------------------------------------------------------------------- *)
 (* The crypto record of the abstract group: r and s are 32-byte big-endian integers, the point of
    abscissa r and recovery bit v has logarithm [lift r v] (the two points of one abscissa are
@@ -1073,6 +1160,29 @@ Section GroupCrypto.
     ~ same_bid_fields b b' ->
     a' <> a \/ (d <> d' /\ g_zn d = g_zn d') \/ collision_among K (bid_preimage_pairs K b b').
   Proof. apply (digest_substitution K group_crypto g_zn group_law_digest (fun p q H => H)). Qed.
+  Theorem group_commitment_flipped_bit K c rs v v' a a' :
+    length rs = 64%nat -> v_to01 v = 0 -> v_to01 v' = 1 ->
+    verify_preconf K group_crypto (with_csig c (rs ++ [v])) = Ok a ->
+    verify_preconf K group_crypto (with_csig c (rs ++ [v'])) = Ok a' -> a' <> a.
+  Proof. apply (commitment_flipped_bit K group_crypto group_law_flip (fun p q H => H)). Qed.
+
+  Theorem group_commitment_negated_s K c rs v v' a :
+    length rs = 64%nat ->
+    verify_preconf K group_crypto (with_csig c (rs ++ [v])) = Ok a ->
+    forall a', verify_preconf K group_crypto (with_csig c (g_neg_s rs ++ [v'])) <> Ok a'.
+  Proof. apply (commitment_negated_s K group_crypto g_neg_s group_law_low_s). Qed.
+
+  Theorem group_commitment_digest_substitution K klen (K_len : forall m, length (K m) = klen)
+          c c' b b' a a' d d' :
+    c_bid c = Some b -> c_bid c' = Some b' ->
+    int64_fields b -> int64_fields b' -> wf_bid b -> wf_bid b' ->
+    verify_preconf K group_crypto c = Ok a -> verify_preconf K group_crypto c' = Ok a' ->
+    c_sig c' = c_sig c -> c_dig c = Some d -> c_dig c' = Some d' ->
+    ~ (same_bid_fields b b' /\ obytes (b_dig b) = obytes (b_dig b') /\ obytes (b_sig b) = obytes (b_sig b')) ->
+    a' <> a \/ (d <> d' /\ g_zn d = g_zn d') \/ collision_among K (commitment_preimage_pairs K b b').
+  Proof.
+    apply (commitment_digest_substitution K group_crypto g_zn klen K_len group_law_digest (fun p q H => H)).
+  Qed.
 End GroupCrypto.
 
 (* non-vacuity of the group instance: n = 7, inverses by Fermat, the point of abscissa r and bit 0
@@ -1171,4 +1281,107 @@ Proof.
   intros n Hp Ho r rinv Hr. split.
   - intros z1 z2 s k. exact (digest_changes_key n Hp Ho r rinv z1 z2 s k Hr).
   - intros z s1 s2 k Hk. exact (s_changes_key n Hp Ho r rinv z s1 s2 k Hr Hk).
+Qed.
+
+(* --- round A2 summaries ---------------------------------------------------------------------- *)
+Definition different_commitment_content (b b' : bid) : Prop :=
+  ~ (same_bid_fields b b' /\ obytes (b_dig b) = obytes (b_dig b') /\ obytes (b_sig b) = obytes (b_sig b')).
+
+Theorem commitment_perturbation_all :
+  forall (K : bytes -> bytes) (cr : crypto) (neg_s : bytes -> bytes) (zn : bytes -> Z) (klen : nat),
+  (forall m, length (K m) = klen) ->
+  (forall h rs pk pk', length rs = 64%nat ->
+     recover cr h (rs ++ [0]) = Ok pk -> recover cr h (rs ++ [1]) = Ok pk' -> pk <> pk') ->
+  (forall pk pk' h rs, length rs = 64%nat ->
+     verify_rs cr pk h rs = true -> verify_rs cr pk' h (neg_s rs) = false) ->
+  (forall d d' sig pk pk', zn d <> zn d' ->
+     recover cr d sig = Ok pk -> recover cr d' sig = Ok pk' -> pk <> pk') ->
+  (forall p q, addr_of cr p = addr_of cr q -> p = q) ->
+  (forall c rs v v' a a', length rs = 64%nat -> v_to01 v = 0 -> v_to01 v' = 1 ->
+     verify_preconf K cr (with_csig c (rs ++ [v])) = Ok a ->
+     verify_preconf K cr (with_csig c (rs ++ [v'])) = Ok a' -> a' <> a) /\
+  (forall c rs v v' a, length rs = 64%nat ->
+     verify_preconf K cr (with_csig c (rs ++ [v])) = Ok a ->
+     forall a', verify_preconf K cr (with_csig c (neg_s rs ++ [v'])) <> Ok a') /\
+  (forall c c' b b' a a' d d',
+     c_bid c = Some b -> c_bid c' = Some b' ->
+     int64_fields b -> int64_fields b' -> wf_bid b -> wf_bid b' ->
+     verify_preconf K cr c = Ok a -> verify_preconf K cr c' = Ok a' ->
+     c_sig c' = c_sig c -> c_dig c = Some d -> c_dig c' = Some d' ->
+     different_commitment_content b b' ->
+     a' <> a \/ (d <> d' /\ zn d = zn d') \/ collision_among K (commitment_preimage_pairs K b b')).
+Proof.
+  intros K cr neg_s zn klen KL L1 L2 L3 AI. split; [|split].
+  - intros c rs v v' a a'. exact (commitment_flipped_bit K cr L1 AI c rs v v' a a').
+  - intros c rs v v' a. exact (commitment_negated_s K cr neg_s L2 c rs v v' a).
+  - intros c c' b b' a a' d d'. exact (commitment_digest_substitution K cr zn klen KL L3 AI c c' b b' a a' d d').
+Qed.
+
+(* everything for the group record, bids and commitments, no premise on the library left *)
+Theorem group_perturbation_full : forall (n : Z), prime n -> (n mod 2 = 1)%Z -> (n < 2 ^ 256)%Z ->
+  forall (rinv_of : Z -> Z), (forall r, (0 < r < n)%Z -> ((r * rinv_of r) mod n = 1)%Z) ->
+  forall (lift : Z -> N -> option Z),
+  (forall r v k, lift r v = Some k -> (0 < k < n)%Z) ->
+  (forall r k k', lift r 0 = Some k -> lift r 1 = Some k' -> (k' = n - k)%Z) ->
+  let cr := group_crypto n rinv_of lift in
+  forall (K : bytes -> bytes) (klen : nat), (forall m, length (K m) = klen) ->
+  (* bids: digest substitution *)
+  (forall b b' a a' d d', int64_fields b -> int64_fields b' ->
+     verify_bid K cr b = Ok a -> verify_bid K cr b' = Ok a' ->
+     b_sig b' = b_sig b -> b_dig b = Some d -> b_dig b' = Some d' ->
+     ~ same_bid_fields b b' ->
+     a' <> a \/ (d <> d' /\ g_zn n d = g_zn n d') \/ collision_among K (bid_preimage_pairs K b b')) /\
+  (* commitments: recovery bit, s -> n-s, digest substitution *)
+  (forall c rs v v' a a', length rs = 64%nat -> v_to01 v = 0 -> v_to01 v' = 1 ->
+     verify_preconf K cr (with_csig c (rs ++ [v])) = Ok a ->
+     verify_preconf K cr (with_csig c (rs ++ [v'])) = Ok a' -> a' <> a) /\
+  (forall c rs v v' a, length rs = 64%nat ->
+     verify_preconf K cr (with_csig c (rs ++ [v])) = Ok a ->
+     forall a', verify_preconf K cr (with_csig c (g_neg_s n rs ++ [v'])) <> Ok a') /\
+  (forall c c' b b' a a' d d',
+     c_bid c = Some b -> c_bid c' = Some b' ->
+     int64_fields b -> int64_fields b' -> wf_bid b -> wf_bid b' ->
+     verify_preconf K cr c = Ok a -> verify_preconf K cr c' = Ok a' ->
+     c_sig c' = c_sig c -> c_dig c = Some d -> c_dig c' = Some d' ->
+     different_commitment_content b b' ->
+     a' <> a \/ (d <> d' /\ g_zn n d = g_zn n d') \/ collision_among K (commitment_preimage_pairs K b b')).
+Proof.
+  intros n Hp Ho Hs rinv_of Hr lift Hl1 Hl2 cr K klen KL. split; [|split; [|split]].
+  - intros b b' a a' d d'. eapply group_digest_substitution; eassumption.
+  - intros c rs v v' a a'. eapply group_commitment_flipped_bit; eassumption.
+  - intros c rs v v' a. eapply group_commitment_negated_s; eassumption.
+  - intros c c' b b' a a' d d'. eapply group_commitment_digest_substitution; eassumption.
+Qed.
+
+(* round trip, naming the key signer's own address: [own] is what KeySigner.GetAddress() returns;
+   the premise says the key recovered from the signer's answers is the key of that address *)
+Theorem construct_bid_verifies_own K cr pk own :
+  (forall h sg, sign cr h = Ok sg ->
+     length sg = 65%nat /\ (nth_error sg 64 = Some 0 \/ nth_error sg 64 = Some 1) /\
+     recover cr h sg = Ok pk /\ verify_rs cr pk h (firstn 64 sg) = true) ->
+  addr_of cr pk = own ->
+  forall tx amt bn ds de b,
+  construct_bid K cr tx amt bn ds de = Ok b -> verify_bid K cr b = Ok own.
+Proof. intros RS <- tx amt bn ds de b H. exact (construct_bid_verifies K cr pk RS tx amt bn ds de b H). Qed.
+
+Theorem construct_preconf_verifies_own K cr pk own :
+  (forall h sg, sign cr h = Ok sg ->
+     length sg = 65%nat /\ (nth_error sg 64 = Some 0 \/ nth_error sg 64 = Some 1) /\
+     recover cr h sg = Ok pk /\ verify_rs cr pk h (firstn 64 sg) = true) ->
+  addr_of cr pk = own ->
+  forall ob c,
+  construct_preconf K cr ob = Ok c -> verify_preconf K cr c = Ok own.
+Proof. intros RS <- ob c H. exact (construct_preconf_verifies K cr pk RS ob c H). Qed.
+
+(* which amount spellings share a digest: exactly those that parse to the same integer (one
+   direction here, for every K; the converse is the binding theorem) *)
+Theorem amount_aliases_same_digest K b amt' :
+  parse_amount amt' = parse_amount (b_amt b) ->
+  bid_hash K (with_amt b amt') = bid_hash K b /\
+  forall dg sg pv, commitment_hash K {| c_bid := Some (with_amt b amt'); c_dig := dg; c_sig := sg; c_prov := pv |} =
+                   commitment_hash K {| c_bid := Some b; c_dig := dg; c_sig := sg; c_prov := pv |}.
+Proof.
+  intros P. split.
+  - unfold bid_hash. cbn [b_amt with_amt]. rewrite P. reflexivity.
+  - intros dg sg pv. unfold commitment_hash. cbn [c_bid b_amt with_amt]. rewrite P. reflexivity.
 Qed.
